@@ -615,6 +615,59 @@ fn eval_cli(ctx: &Ctx, case: &CliCase) -> Verdict {
     Ok(Pass::new().nontrivial(true).label(format!("residue={residue:02}")).label(if !case.to_file { "stdout" } else if n % 2 == 0 { "-o onto an existing longer file" } else { "-o fresh file" }))
 }
 
+/// A valid numpy file whose data section begins and ends with a chosen byte, read by the binary.
+#[derive(Clone, Debug, Serialize, Deserialize)]
+pub struct CliReaderCase {
+    pub dtype: Dtype,
+    pub order: Order,
+    pub edge: u8,
+    /// header padded to a multiple of 16 (numpy < 1.14) instead of 64
+    pub align16: bool,
+    pub stdin: bool,
+}
+
+fn eval_cli_reader(ctx: &Ctx, case: &CliReaderCase) -> Verdict {
+    let dir = ctx.worker_dir(crate::engine::worker_id());
+    let size = case.dtype.size();
+    // three elements; the first file byte of the first and the last file byte of the last are `edge`
+    let element = |bytes: Vec<u8>| -> u64 {
+        let mut v = 0u64;
+        match case.order {
+            Order::Big => bytes.iter().for_each(|b| v = v << 8 | *b as u64),
+            _ => bytes.iter().rev().for_each(|b| v = v << 8 | *b as u64),
+        }
+        v
+    };
+    let mut first = vec![0x41u8; size];
+    first[0] = case.edge;
+    let mut last = vec![0x41u8; size];
+    last[size - 1] = case.edge;
+    let bits = vec![element(first), element(vec![0x3f; size]), element(last)];
+    let rc = ReaderCase { dtype: case.dtype, order: case.order, version: 1, shape: vec![3], bits: bits.clone(), spelling: if case.align16 { Some(Spelling { align: 16, ..Spelling::numpy() }) } else { None } };
+    let bytes = build_file(&rc, false, None);
+    let parsed = npy::parse_header(&bytes).map_err(|e| Failure::new(format!("harness generator produced a header its own parser rejects: {e}")))?;
+    ensure!(*bytes.last().unwrap() == case.edge && bytes[parsed.data_offset] == case.edge, "generator self-check: edge bytes");
+    let want: Vec<u64> = bits.iter().map(|b| npy::bits_to_f64(case.dtype, *b).to_bits()).collect();
+    if want.iter().any(|w| f64::from_bits(*w).is_nan()) {
+        return Ok(Pass::new().label("skipped-nan"));
+    }
+    let what = format!("{} file of 3 elements whose data section begins and ends with byte {:#04x} (header aligned to {}), given {}", npy::descr(case.dtype, case.order), case.edge, if case.align16 { 16 } else { 64 }, if case.stdin { "on stdin" } else { "by path" });
+    std::fs::write(dir.join("in.npy"), &bytes).expect("write");
+    let run = if case.stdin { cli::sfs(ctx, &["view", "-O", "npy"], Input::Pipe(&bytes), &dir) } else { cli::sfs(ctx, &["view", "-O", "npy", "in.npy"], Input::Null, &dir) };
+    ensure!(run.ok(), "`sfs view -O npy` rejects a valid {what}: {}", cli::cut(&run.describe(), 300));
+    check_written(&run.stdout, &[3], &want, &format!("`sfs view -O npy` of a {what}"))?;
+    // and as text at full precision
+    let run = if case.stdin { cli::sfs(ctx, &["view", "--precision", "17"], Input::Pipe(&bytes), &dir) } else { cli::sfs(ctx, &["view", "--precision", "17", "in.npy"], Input::Null, &dir) };
+    ensure!(run.ok(), "`sfs view` rejects a valid {what}: {}", cli::cut(&run.describe(), 300));
+    let text = cli::parse_text_spectrum(&run.stdout_str()).map_err(|e| Failure::new(format!("`sfs view` of a {what}: unparsable output: {e}")))?;
+    ensure!(text.shape == vec![3] && text.values.len() == 3, "`sfs view` of a {what}: shape {:?}", text.shape);
+    for (i, (g, w)) in text.values.iter().zip(&want).enumerate() {
+        let w = f64::from_bits(*w);
+        ensure!((g - w).abs() <= 0.5e-17 + 4.0 * f64::EPSILON * w.abs() || (g.is_infinite() && *g == w), "`sfs view --precision 17` of a {what}: element {i} printed as {}, the file holds {w:?}", text.tokens[i]);
+    }
+    Ok(Pass::new().nontrivial(true).label(format!("edge-byte={:#04x}", case.edge)))
+}
+
 pub fn npy_fuzz_seeds() -> Vec<Vec<u8>> {
     let mut v: Vec<Vec<u8>> = matrix_cases().iter().step_by(3).map(|c| build_file(c, false, None)).collect();
     v.extend(residue_cases().iter().step_by(17).filter_map(|c| lib_write_npy(&c.shape, &c.bits).ok()).filter(|b| b.len() <= 2048));
@@ -651,6 +704,26 @@ pub fn check(ctx: &Ctx) -> Check {
             cases: ctx.tier.pick(10_000, 600_000),
             strategy: Box::new(|| reader_strategy().boxed()),
             eval: Box::new(eval_reader),
+        }),
+        Box::new(EnumPart {
+            name: "cli-reader-edge-bytes",
+            rule: "valid numpy files of every supported dtype and byte order (three elements, header padded to 64 or to 16 bytes) whose data section begins and ends with one of the bytes 0x00, 0x09, 0x0a, 0x0b, 0x0c, 0x0d, 0x20, 0x23, 0x85, 0xa0, 0xff (blanks, line ends, the text format's `#`), given to `sfs view` by path and on stdin: accepted, converted to '<f8' bit-exactly (strict validator on the output) and printed at 17 decimals with the values numpy's float64 conversion gives -- whatever the binary does to its input before handing it to the npy reader (sniffing, trimming) must leave a binary file alone",
+            exhaustive: true,
+            cases: Box::new(|_| {
+                let mut v = Vec::new();
+                for dtype in ALL_DTYPES {
+                    for order in [Order::Little, Order::Big] {
+                        for (k, edge) in [0x00u8, 0x09, 0x0a, 0x0b, 0x0c, 0x0d, 0x20, 0x23, 0x85, 0xa0, 0xff].into_iter().enumerate() {
+                            v.push(CliReaderCase { dtype, order, edge, align16: k % 2 == 0, stdin: (k / 2) % 2 == 0 });
+                            if matches!(edge, 0x0a | 0x20) {
+                                v.push(CliReaderCase { dtype, order, edge, align16: k % 2 != 0, stdin: (k / 2) % 2 != 0 });
+                            }
+                        }
+                    }
+                }
+                v
+            }),
+            eval: Box::new(eval_cli_reader),
         }),
         Box::new(EnumPart {
             name: "reader-rejects",
